@@ -23,9 +23,7 @@ fn c09_update_rotation_timestamp() {
     model::set_ledger(t, kani::any());
     model::with_contract(&gw, || {
         env.storage().instance().set(&DataKey::MinimumRotationDelay, &d);
-        if has_t0 {
-            env.storage().instance().set(&DataKey::LastRotationTimestamp, &t0);
-        }
+        model::storage_set_if(has_t0, &gw, 0, &key(&DataKey::LastRotationTimestamp), &model::val_of(&t0));
     });
     let last = if has_t0 { t0 } else { 0 };
     let r = model::with_contract(&gw, || update_rotation_timestamp(&env, enforce));
